@@ -163,6 +163,23 @@ def b_minmax(is_max):
         if len(args) == 2 and all(isinstance(a, VNum) for a in args):
             x, y, k = num_join(*args)
             return VNum(z3.If((x >= y) if is_max else (x <= y), x, y), k)
+        if len(args) == 1 and not kw and isinstance(args[0], VSeq) and args[0].elem in (S.Int, S.Real, S.Float):
+            # max(list) / min(list) of numbers: ValueError on an empty list; otherwise an element (ghost position `_argmax` /
+            # `_argmin`, visible to hint clauses) that bounds every element -- the definition of the maximum / minimum
+            r = args[0].term
+            L = z3.Length(r)
+            ex.need(st, L > 0, "ValueError", node, "max()/min() of an empty sequence")
+            j = z3.Int(S.fresh_name("argmax" if is_max else "argmin"))
+            i = z3.Int(S.fresh_name("mi"))
+            m = r[j]
+            # facts are shared by all paths: everything about the fresh position is stated under L > 0
+            st.facts.append(z3.Implies(L > 0, z3.And(j >= 0, j < L)))
+            body = z3.Implies(z3.And(i >= 0, i < L), (r[i] <= m) if is_max else (r[i] >= m))
+            st.facts.append(z3.ForAll([i], body, patterns=[r[i]]))
+            ex.ctx.elementwise.append((i, body))
+            st.env["_argmax" if is_max else "_argmin"] = VNum(j, "int")
+            kind = {S.Int: "int", S.Real: "real", S.Float: "float"}[args[0].elem]
+            return VNum(m, kind)
         raise OutOfReach("min/max")
     return f
 
